@@ -25,7 +25,7 @@ PROPS = {
         parts=[dict(name="memfs"), dict(name="kernel"), dict(name="orefa"), dict(name="kernel-orefa")],
         trusted=MODEL_TRUST + ["oracle: the Linux kernel through OsFS / package os in a chroot-ed child process on a fresh tmpfs directory (corr kernel): MemFS itself, not the model, is compared call by call and tree by tree"],
         assumptions=["administrator; Linux emulation; the root directory is not an operand of remove/rename in the kernel comparison (the oracle's scratch root is not a file-system root)", "set-id bits are not generated in the kernel comparison (kernel-specific inheritance / clearing rules)"],
-        not_yet_proved=["MemFS = POSIX reference is proved for Mkdir, Remove and Stat/Lstat on clean absolute paths that meet no symbolic link (C01_mkdir_posix, C01_remove_posix, C01_stat_posix over the component-wise resolution walkPath); the other calls, paths through links, relative paths: equality with Linux is carried by the direct impl≟kernel oracle run and its ledger of divergence classes", "OrefaFS: executable model (Avfs/FS/Orefa.lean) tied by corr orefa (tree + path index after every call) and compared with the kernel by corr kernel-orefa; no theorems about it yet"],
+        not_yet_proved=["MemFS = POSIX reference is proved for Mkdir, Remove, Stat/Lstat, OpenFile (every flag value), Link, Truncate, Chmod, Chown (administrator) and Rename (file and directory sources) on clean absolute paths that meet no symbolic link (C01_*_posix over the component-wise resolution walkPath; the corners where MemFS deviates are explicit hypotheses with kernel-checked witnesses); RemoveAll, MkdirAll, Symlink/Readlink, the composites, paths through links, relative paths: equality with Linux is carried by the direct impl≟kernel oracle run and its ledger of divergence classes", "OrefaFS: executable model (Avfs/FS/Orefa.lean) tied by corr orefa (tree + path index after every call) and compared with the kernel by corr kernel-orefa; no theorems about it yet"],
     ),
     "C04": dict(
         props_files=["Avfs/Props/C04.lean"],
@@ -47,7 +47,7 @@ PROPS = {
         parts=[],
         race=RACE_CFG,
         lin=[("memfs", "proved", 30000), ("orefafs", "proved", 15000), ("memfs", "known", 6000), ("orefafs", "known", 3000), ("memfs", "deadlock", 15000)],
-        trusted=CONC_TRUST + ["two-phase model (Avfs/Conc/Lin.lean, LinDir.lean): the walk is ONE atomic look at the parent's entry (searchNode reads it under the parent's read lock), the commit is atomic (it runs under parent.mu.Lock(), and every access to the children map happens under that lock: C08_discipline_sites); the shape of the Go functions (walk, one commit lock, look-up under the lock before every mutation, nothing captured by the walk used afterwards) is extracted by lockx on every run and decided by the kernel (C06_commit_fresh_memfs, C06_stale_sites); that the commit of the MODEL (dspec) is what the Go commit computes is carried by the sequential correspondence of C01/C05 and by the linearizability search, not by a theorem"],
+        trusted=CONC_TRUST + ["two-phase model (Avfs/Conc/Lin.lean, LinDir.lean): the walk is ONE atomic look at the parent's entry (searchNode reads it under the parent's read lock), the commit is atomic (it runs under parent.mu.Lock(), and every access to the children map happens under that lock: C08_discipline_sites); the shape of the Go functions (walk, one commit lock, look-up under the lock before every mutation, nothing captured by the walk used afterwards) is extracted by lockx on every run and decided by the kernel (C06_commit_fresh_memfs, C06_stale_sites); that the abstract commit (dspec) is what the sequential MemFS MODEL computes on leaf names is proved (C06_memfs_concurrent_refines: simulation relation Sim, any log); that the Go commit computes what the model does is carried by the sequential correspondence of C01/C05 and by the linearizability search"],
         assumptions=["proved part: (1) operations that are one critical section (OrefaFS Mkdir/MkdirAll/Remove/RemoveAll, all MemIdm operations but AddUser); (2) MemFS Mkdir / OpenFile(O_CREATE|O_EXCL) / Remove on leaf names of directories that no concurrent call removes or renames, callers whose permissions do not change during the run"],
         not_yet_proved=["MemFS Link / Symlink / Rename / RemoveAll / MkdirAll (commits rely on the unlocked walk: recorded findings)", "calls below a directory that a concurrent call removes or renames (no dead-directory mark in MemFS: recorded finding)", "CreateTemp/MkdirTemp name uniqueness (follows from exclusive create; not stated separately)", "deterministic schedule exploration is not built (no scheduler hook in the source): counter-schedules are found by free-running search only"],
     ),
@@ -65,7 +65,7 @@ PROPS = {
         race=[("memidm", "", 2), ("memfs", CLEAN, 2), ("memfs", "mkdir,remove", 2), ("orefafs", "mkdir,remove", 2)],
         lin=[("memfs", "deadlock", 25000)],
         props_files=["Avfs/Props/C07.lean"],
-        parts=[dict(name="memfs"), dict(name="memfs-files"), dict(name="orefa"), dict(name="path", tags="verif,avfs_setostype")],
+        parts=[dict(name="memfs"), dict(name="memfs-files"), dict(name="orefa"), dict(name="failfs"), dict(name="rofs"), dict(name="bpfs"), dict(name="path", tags="verif,avfs_setostype")],
         trusted=MODEL_TRUST,
         assumptions=["part (a) only: sequential no-panic / no-hang; interleavings (b)(c) are C06/C08 work in progress"],
         not_yet_proved=["ranked lock acquisition of the real functions (generic theorem ranked_deadlock_free is proved in Avfs/Conc; the per-function rank obligations need the lock-skeleton translator)", "no-panic as a theorem for the OrefaFS model (the model has panic / hang outcomes exactly where the Go code would; the correspondence reports any it meets), RoFS, BasePathFS, FailFS"],
